@@ -436,11 +436,13 @@ retry:
                     return G.cur;
             return cand[0];
         }
-        /* trace exhausted: keep the current thread while it can run */
+        /* trace exhausted: fair random walk (liveness is only judged from here on) */
+        if (G.adv_steps > G.steps)
+            G.adv_steps = G.steps;
         for (int i = 0; i < nc; i++)
-            if (cand[i] == G.cur && !is_idle(&T[G.cur]))
+            if (cand[i] == G.cur && srnd(2) == 0)
                 return G.cur;
-        return cand[G.steps % (uint64_t)nc];
+        return cand[srnd((uint32_t)nc)];
     }
     int cur_ok = 0;
     for (int i = 0; i < nc; i++)
@@ -514,7 +516,17 @@ void sim_sched_point(int kind, const char *file, int line)
     int site = file ? sim_site_id(file, line) : 0;
     G.steps++;
     me->nsteps++;
-    G.now += G.quantum;
+    {
+        /* a step takes longer on a "slow machine" once the run has made no harness-level
+         * progress for a long time: virtual time then reaches every finite timeout well
+         * within the liveness bound (legal: no oracle encodes timing) */
+        uint64_t since = G.steps - G.last_progress, q = G.quantum;
+        if (since > 300000 && q < 1000000)
+            q = 1000000;
+        else if (since > 100000 && q < 10000)
+            q = 10000;
+        G.now += q;
+    }
     G.last_site = site;
     G.fp = (G.fp ^ ((uint64_t)G.cur << 24) ^ ((uint64_t)kind << 16) ^ (uint64_t)site) * 0x100000001b3ULL;
     tail[tail_pos % TAIL_N].step = G.steps;
@@ -873,6 +885,7 @@ void sim_run_begin(void)
         G.rr_quantum = 1 + (int)srnd(200);
     }
     if (G.replay_trace) {
+        G.adv_steps = 40000000ULL; /* until the trace is exhausted */
         G.trace_pos = 0;
         G.trace_left = G.ntrace ? G.trace[0].count : 0;
         G.event_pos = 0;
